@@ -5,6 +5,10 @@ MUTANTS = {
   # ---- DESIGN must-kill
   ('m1_finalize_drops_globals', A,
    "        self.parent.globals.update(self.globals)\n", ""),
+  # m2 is NOT killed and is kept as documentation: the property text speaks about the *classification* of names, which
+  # the oracle derives as bound - globals - nonlocals - params and read - (bound - globals - nonlocals); both are
+  # invariant under dropping a declared nonlocal from `bound` (and by the language reference `nonlocal` is not a binding).
+  # The only observable effect is that `def H` now exports the read to the enclosing function - closer to CPython.
   ('m2_nonlocal_not_bound', A,
    "      self.scope.read.add(qn)\n      self.scope.bound.add(qn)\n      self.scope.nonlocals.add(qn)",
    "      self.scope.read.add(qn)\n      self.scope.nonlocals.add(qn)"),
